@@ -65,7 +65,11 @@ func (c *Ctx) heapWFAxiom(key, name string) string {
 	if key != "Slice" {
 		return ""
 	}
-	return fmt.Sprintf("(forall ((o Int) (i Int)) (! (wfslice (select (select %s o) i)) :pattern ((select (select %s o) i))))", name, name)
+	bound := c.heapBound[name]
+	if bound == "" {
+		bound = "alloc0"
+	}
+	return fmt.Sprintf("(forall ((o Int) (i Int)) (! (and (wfslice (select (select %s o) i)) (< (sobj (select (select %s o) i)) %s)) :pattern ((select (select %s o) i))))", name, name, bound, name)
 }
 
 // wantSliceWF adds (once) the well-formedness axiom for a heap of slices
@@ -87,8 +91,9 @@ func (c *Ctx) wantSliceWF(key, name string) {
 }
 
 // newHeapConst declares a havocked heap.
-func (c *Ctx) newHeapConst(key, prefix string) string {
+func (c *Ctx) newHeapConst(key, prefix, bound string) string {
 	n := c.declConst(heapKey(key)+prefix, c.heapSortOf(key))
+	c.heapBound[n] = bound
 	return n
 }
 
@@ -115,6 +120,7 @@ type retInfo struct {
 	st      *State
 	pos     token.Pos
 	ord     int
+	block   *ssa.BasicBlock
 }
 
 type loopInfo struct {
@@ -147,6 +153,8 @@ type frame struct {
 	lastNext map[ssa.Value]string
 	safeDone map[string][]*ssa.BasicBlock
 	frameDone map[string]bool
+	assertAt map[ssa.Instruction][]*AssertSpec
+	curInstr int
 	depth    int
 	top      bool
 	entry    *State
@@ -523,7 +531,7 @@ func (fr *frame) allocObj(st *State, what string) string {
 // ---------- running a function ----------
 
 func (c *Ctx) newFrame(fn *ssa.Function, contract *FuncContract, depth int) *frame {
-	fr := &frame{c: c, fn: fn, contract: contract, vals: map[ssa.Value]Val{}, reach: map[*ssa.BasicBlock]string{}, outSt: map[*ssa.BasicBlock]*State{}, outReach: map[*ssa.BasicBlock]string{}, edge: map[[2]int]string{}, loops: map[*ssa.BasicBlock]*loopInfo{}, depth: depth, sites: map[string]int{}, params: map[string]Val{}, debug: map[string][]*ssa.DebugRef{}, panicOK: "false", lastNext: map[ssa.Value]string{}, frameDone: map[string]bool{}}
+	fr := &frame{c: c, fn: fn, contract: contract, vals: map[ssa.Value]Val{}, reach: map[*ssa.BasicBlock]string{}, outSt: map[*ssa.BasicBlock]*State{}, outReach: map[*ssa.BasicBlock]string{}, edge: map[[2]int]string{}, loops: map[*ssa.BasicBlock]*loopInfo{}, depth: depth, sites: map[string]int{}, params: map[string]Val{}, debug: map[string][]*ssa.DebugRef{}, panicOK: "false", lastNext: map[ssa.Value]string{}, frameDone: map[string]bool{}, curInstr: -1}
 	for _, b := range fn.Blocks {
 		for _, ins := range b.Instrs {
 			if d, ok := ins.(*ssa.DebugRef); ok {
@@ -710,6 +718,9 @@ func (fr *frame) run(args []Val, st0 *State, reach0 string) {
 		fr.params[p.Name()] = args[i]
 	}
 	fr.findLoops()
+	if fr.top {
+		fr.locateAsserts()
+	}
 	for _, b := range fr.order() {
 		var reach string
 		var st *State
@@ -850,19 +861,17 @@ func (fr *frame) enterLoop(li *loopInfo, preds []*ssa.BasicBlock, conds []string
 	}
 	fr.checkInvariants(li, st, "inv_init")
 	// 2. havoc
-	entryHeaps := map[string]string{}
-	for _, k := range ks {
-		entryHeaps[k] = c.heap(st, k)
-		st.heaps[k] = c.newHeapConst(k, "_loop")
-	}
-	for a := range locals {
-		rt := a.Type().Underlying().(*types.Pointer).Elem()
-		st.locals[a] = c.declConst("loc_"+sanitize(a.Comment), c.sortOf(rt))
-	}
 	if allocs {
 		na := c.declConst("alloc_loop", "Int")
 		fr.assumeR(fmt.Sprintf("(>= %s %s)", na, st.alloc))
 		st.alloc = na
+	}
+	for _, k := range ks {
+		st.heaps[k] = c.newHeapConst(k, "_loop", st.alloc)
+	}
+	for a := range locals {
+		rt := a.Type().Underlying().(*types.Pointer).Elem()
+		st.locals[a] = c.declConst("loc_"+sanitize(a.Comment), c.sortOf(rt))
 	}
 	for _, phi := range phis {
 		v := Val{T: c.declConst("phi_"+phi.Name()+"_"+sanitize(phi.Comment), c.sortOf(phi.Type())), Ty: phi.Type()}
@@ -887,7 +896,6 @@ func (fr *frame) enterLoop(li *loopInfo, preds []*ssa.BasicBlock, conds []string
 			li.decPrev = append(li.decPrev, c.define("dec", "Int", v.T))
 		}
 	}
-	_ = entryHeaps
 }
 
 // frameTerm: forall o: 0<o<bound && o not modified => Hnew[o] == Hold[o]
@@ -1064,7 +1072,86 @@ func (fr *frame) execBlock(b *ssa.BasicBlock, st *State) {
 		if _, ok := ins.(*ssa.Phi); ok {
 			continue
 		}
+		if fr.top && fr.assertAt != nil {
+			if as := fr.assertAt[ins]; len(as) > 0 {
+				// program-point clause: names denote the variables' current values
+				env := fr.specEnv(st, nil)
+				fr.curInstr = instrIndex(b, ins)
+				for _, a := range as {
+					v := env.trBool(a.C.Expr)
+					o := fr.oblige("assert", a.C.Label, propsOr(a.C.Props, fr.props), v, a.C.Text+"   at `"+a.Text+"`", ins.Pos())
+					o.Using, o.Extra = fr.c.splitUsing(env, a.C.Using)
+				}
+				fr.curInstr = -1
+			}
+		}
 		fr.execInstr(ins, st)
+	}
+}
+
+func instrIndex(b *ssa.BasicBlock, ins ssa.Instruction) int {
+	for k, x := range b.Instrs {
+		if x == ins {
+			return k
+		}
+	}
+	return -1
+}
+
+func (fr *frame) innermostLoop(b *ssa.BasicBlock) *loopInfo {
+	var best *loopInfo
+	for _, li := range fr.loopList {
+		if li.body[b] && (best == nil || len(li.body) < len(best.body)) {
+			best = li
+		}
+	}
+	return best
+}
+
+// locateAsserts maps assert clauses to the first instruction of the n-th
+// source line (within the function) whose text contains the locator.
+func (fr *frame) locateAsserts() {
+	if fr.contract == nil || len(fr.contract.Asserts) == 0 {
+		return
+	}
+	fr.assertAt = map[ssa.Instruction][]*AssertSpec{}
+	type cand struct {
+		line int
+		ins  ssa.Instruction
+	}
+	P := fr.c.prog
+	for _, a := range fr.contract.Asserts {
+		first := map[int]ssa.Instruction{}
+		var lines []int
+		for _, b := range fr.fn.Blocks {
+			for _, ins := range b.Instrs {
+				if _, isDbg := ins.(*ssa.DebugRef); isDbg {
+					continue
+				}
+				if _, isPhi := ins.(*ssa.Phi); isPhi {
+					continue
+				}
+				pos := ins.Pos()
+				if !pos.IsValid() {
+					continue
+				}
+				pp := P.Fset.Position(pos)
+				if !strings.Contains(P.sourceLine(pp), a.Text) {
+					continue
+				}
+				if _, ok := first[pp.Line]; !ok {
+					first[pp.Line] = ins
+					lines = append(lines, pp.Line)
+				}
+			}
+		}
+		sort.Ints(lines)
+		if a.Ord-1 < len(lines) {
+			ins := first[lines[a.Ord-1]]
+			fr.assertAt[ins] = append(fr.assertAt[ins], a)
+		} else {
+			fr.c.errs = append(fr.c.errs, fmt.Sprintf("%s: assert [%s]: no source line #%d containing `%s`", funcDisplay(fr.fn), a.C.Label, a.Ord, a.Text))
+		}
 	}
 }
 
@@ -1129,7 +1216,7 @@ func (fr *frame) execInstr(ins ssa.Instruction, st *State) {
 		for _, r := range x.Results {
 			rs = append(rs, fr.val(r))
 		}
-		fr.returns = append(fr.returns, retInfo{reach: fr.curReach, results: rs, st: st.clone(), pos: x.Pos(), ord: len(fr.returns) + 1})
+		fr.returns = append(fr.returns, retInfo{reach: fr.curReach, results: rs, st: st.clone(), pos: x.Pos(), ord: len(fr.returns) + 1, block: b})
 	case *ssa.Panic:
 		fr.execPanic(x, st)
 	case *ssa.MakeInterface:
